@@ -2388,7 +2388,7 @@ def to_history_tuple(x):
     if not isinstance(x, cabc.Sequence | float | int):
         raise ValueError("history size must be given as a sequence or number")
     if isinstance(x, str):
-        m = RE_HISTORY_TUPLE.match(x.strip().lower())
+        m = RE_HISTORY_TUPLE.fullmatch(x.strip().lower())
         if m is None:
             raise ValueError(f"could not parse history size: {x!r}")
         return to_history_tuple((m.group(1), m.group(3)))
